@@ -11,9 +11,15 @@ def main():
     xml = os.path.join(out, "junit.xml")
     env = {k: v for k, v in os.environ.items() if k != "ASPIRE_VERIF"}
     extra = sys.argv[1:]
+    repo = "/repo"
+    if "--tree" in extra:  # run the suite of another checkout (scratch worktree) against its own sources
+        i = extra.index("--tree")
+        repo = extra[i + 1]
+        del extra[i:i + 2]
+        env["PYTHONPATH"] = os.path.join(repo, "src")
     cmd = ["/venv/bin/python", "-m", "pytest", "-ra", "-q", "-p", "no:cacheprovider", "--timeout=900",
            "--continue-on-collection-errors", f"--junitxml={xml}"] + extra
-    p = subprocess.run(cmd, cwd="/repo", env=env, stdout=subprocess.PIPE, stderr=subprocess.STDOUT, text=True)
+    p = subprocess.run(cmd, cwd=repo, env=env, stdout=subprocess.PIPE, stderr=subprocess.STDOUT, text=True)
     passed = set()
     for tc in ET.parse(xml).getroot().iter("testcase"):
         ok = not any(ch.tag in ("failure", "error", "skipped") for ch in tc)
